@@ -246,6 +246,7 @@ def w_real(cfg, tier):
     col = hz.Collector(cfg)
     col.encoded(Dec.decode)
     em = PauliErrorModel(1 / 3, 1 / 3, 1 / 3)
+    built = [0]          # decoders built so far from the SAME code and noise-model objects (an explicit history)
     eng = Engine(name=cfg, max_paths=200000)
     with eng:
         qs = [eng.integer(f'q{i}', 0, n - 1) for i in range(wmax)]
@@ -261,9 +262,11 @@ def w_real(cfg, tier):
                     e[qv] ^= 1
                 if lv & 2:
                     e[n + qv] ^= 1
+            k_ = built[0]
+            built[0] += 1
             dec = Dec(code, em, 0.1)
             c = np.asarray(dec.decode(code.measure_syndrome(e)))
-            return e.tolist(), c.shape == (2 * n,) and bool(code.is_success((c.astype(np.uint8) + e) % 2))
+            return e.tolist(), c.shape == (2 * n,) and bool(code.is_success((c.astype(np.uint8) + e) % 2)), k_
         ps = eng.explore(fn)
     col.absorb(eng)
     bad = []
@@ -273,12 +276,13 @@ def w_real(cfg, tier):
             bad.append(z3_and(p.pc))
             w[0] = w[0] or dict(error=None, exception=f'{type(p.exc).__name__}: {p.exc}')
             continue
-        e, ok = p.value
+        e, ok, k_ = p.value
         bad.append(z3_and(p.pc + [z3.BoolVal(not ok)]))
         if not ok and w[0] is None:
-            w[0] = dict(error=e, real=parts[1])
+            w[0] = dict(error=e, real=parts[1], earlier_decoders=k_)
     col.prove(f'C09/real/{parts[1]}/every-error-of-weight-le-{wmax}-is-corrected', eng.base, z3_or(bad), lambda m: w[0],
-              f'{len(ps)} realised errors (all supports of size <= {wmax}, all X/Y/Z letters), real {Dec.__name__}')
+              f'{len(ps)} realised errors (all supports of size <= {wmax}, all X/Y/Z letters), real {Dec.__name__}; every decoder is '
+              'built anew from the same code and noise-model objects (the k-th path has k earlier decoders as history)')
     return col.result()
 
 
@@ -293,20 +297,24 @@ def replay(path):
     with open(path) as f:
         dd = json.load(f)
     w, oid, cfg = dd['witness'], dd['oid'], dd['config']
-    code = common.make_code(cfg.split(' ')[1])
-    n = code.n
     bad = False
     try:
+        if not cfg.startswith('real'):
+            code = common.make_code(cfg.split(' ')[1])
+            n = code.n
         if cfg.startswith('real'):
             import panqec.decoders as pd_
             parts = cfg.split(' ')
             Dec = getattr(pd_, REAL_DECODERS[parts[1]])
             code = common.make_code(parts[2])
             e = np.array(w['error'], dtype=np.uint8)
-            dec = Dec(code, PauliErrorModel(1 / 3, 1 / 3, 1 / 3), 0.1)
+            em = PauliErrorModel(1 / 3, 1 / 3, 1 / 3)
+            for _ in range(min(int(w.get('earlier_decoders', 0)), 20000)):
+                Dec(code, em, 0.1)          # the history of the failing path: decoders built from the same objects
+            dec = Dec(code, em, 0.1)
             c = np.asarray(dec.decode(code.measure_syndrome(e))).astype(np.uint8)
             bad = not code.is_success((c + e) % 2)
-            print('error', e.tolist(), 'corrected:', not bad)
+            print('error', e.tolist(), 'after', w.get('earlier_decoders', 0), 'earlier decoders; corrected:', not bad)
             print('REPLAY', 'reproduced' if bad else 'not-reproduced', oid, cfg)
             return 0
         if cfg.startswith('second'):
